@@ -135,6 +135,7 @@ structure Cfg where
   keepValueOnError : Bool := true   -- D20: a resolver returning value and error keeps the value in data
   argCountCheckOnly : Bool := true  -- D23: unknown arguments are reported only when the counts differ, and only on object containers
   opFallbackAnyName : Bool := true  -- D11: a name that matches no operation falls back to the document's only operation
+  unionAtMember : Bool := true      -- D103: the selections under a union-typed field are resolved at the member type (so a member's field can be selected without a fragment)
   metaArgsUnchecked : Bool := true  -- D100: `__typename` is answered whatever arguments it is given
   anonAmongOthers : Bool := true    -- D96: an operation without a name is accepted next to other operations
   dupKeyOverwrites : Bool := true   -- D12: a response key selected again replaces the earlier value instead of being merged with it
@@ -242,6 +243,20 @@ def complete (s : Schema) (g : Graph) (k : Nat → String → Nat → J × Acc) 
        | none => (.obj [], {}))
     | _, _ => (.null, { errs := [⟨[], .leaf⟩] })
 
+def TRef.base : TRef → String
+  | .named n => n
+  | .list t => t.base
+  | .nonNull t => t.base
+
+/-- the (static) type the selections of a field's value are walked at: the type `complete` hands on — the declared
+type, or for a union-typed field the member type the value is bound to — except that, repaired (D103), a union-typed
+field's selections are walked at the union itself, as an interface-typed field's are at the interface -/
+def staticTy (env : Env) (declared : TRef) (t : String) : String :=
+  if env.cfg.unionAtMember then t else
+  match env.schema.find declared.base with
+  | some (.union ..) => declared.base
+  | _ => t
+
 /-- `objectType`: the object type of the node at a position of (static) type `ty` — `ty` itself when it is an object
 type; for an interface / union the object type the node's Go type is bound to, when that type implements the
 interface / is a member of the union; `none` when it can not be determined -/
@@ -319,7 +334,7 @@ def rSel (env : Env) (node : Nat) (ty : String) (d : Nat) (res : List (String ×
         let fr : FieldRes := fetch env.graph node name
         let call : Call := ⟨node, name, ty, args⟩
         let resolverErrs : List Err := List.replicate fr.errs ⟨[], .resolver⟩
-        let (fv, acc) := complete env.schema env.graph (fun n t d' => if sels.isEmpty then (.obj [], { errs := [⟨[], .noSelection⟩] }) else let r := rSels env n t d' [] sels; (.obj r.1, r.2)) fd.type fr.val d
+        let (fv, acc) := complete env.schema env.graph (fun n t d' => if sels.isEmpty then (.obj [], { errs := [⟨[], .noSelection⟩] }) else let r := rSels env n (staticTy env fd.type t) d' [] sels; (.obj r.1, r.2)) fd.type fr.val d
         let fv := if fr.errs > 0 && !env.cfg.keepValueOnError then J.null else fv
         ((match fr.val with | .nil => putNil env.cfg res key | _ => putVal env.cfg res key fv),
          { errs := skipErrs ++ prefixErrs (.key key) (resolverErrs ++ acc.errs), calls := call :: acc.calls })
